@@ -660,9 +660,9 @@ func (d *DNSFilter) processRewrites(host string, qtype uint16) (res Result) {
 		rw := rewrites[0]
 		rwPat := rw.Domain
 
-		// The patterns and the hosts are in lower case, so compare and look
-		// the canonical name up in lower case as well.
-		rwAns := strings.ToLower(rw.Answer)
+		// The patterns and the hosts are in lower case and have no trailing
+		// dot, so compare and look the canonical name up in the same form.
+		rwAns := strings.ToLower(strings.TrimSuffix(rw.Answer, "."))
 
 		log.Debug("rewrite: cname for %s is %s", host, rwAns)
 
